@@ -3,7 +3,7 @@
    produced, the file-system calls the write consists of and the abstract state a kill at the
    n-th call leaves behind. *)
 From Coq Require Import List NArith ZArith Bool.
-From GF Require Import Base.Bytes Base.Lit Base.SortedMap Model.Mem Model.Crash.
+From GF Require Import Base.Bytes Base.Lit Base.SortedMap Model.Mem Model.Crash Model.CrashDirs.
 Import ListNotations.
 
 Definition live_objects (s : state) (b : bytes) : list (bytes * (bytes * umeta)) :=
@@ -45,3 +45,19 @@ Definition crash_state (before after : state) (b k : bytes) (n : nat) (partial :
   | Some (body, _, u) => fst (put_object before b k body u)
   end.
 End WithMD5.
+
+(* the directory side (Model/CrashDirs.v): the directory-changing calls of the same write and the
+   common prefixes without a key that a kill after the first n of them leaves in the bucket's
+   delimiter listing *)
+Definition crash_dops (before after : state) (b k : bytes) : list dop :=
+  let t := tree_of (map fst (live_objects before b)) in
+  match crash_target after b k with
+  | Some _ => put_dops t k
+  | None => del_dops t k
+  end.
+
+Definition crash_dir_calls (before after : state) (b k : bytes) : list bytes :=
+  map dop_name (crash_dops before after b k).
+
+Definition crash_phantoms (before after : state) (b k : bytes) (n : nat) : list bytes :=
+  phantom_prefixes (run_dops (tree_of (map fst (live_objects before b))) (firstn n (crash_dops before after b k))).
